@@ -169,7 +169,7 @@ Lemma drain_line_raw inp : forall acc cm rest, drain_line inp acc = (cm, rest) -
 Proof.
   induction inp as [|r0 inp IH]; intros acc cm rest; simpl.
   - intros [= <- <-]. exists []. now rewrite app_nil_r.
-  - destruct (N.eqb (fst r0) 10).
+  - destruct (N.eqb (fst r0) 10 || N.eqb (fst r0) 13).
     + intros [= <- <-]. exists [r0]. simpl. auto.
     + intros H. apply IH in H as (c & -> & E). exists (r0 :: c). simpl. rewrite <- app_assoc. simpl. now rewrite <- E.
 Qed.
